@@ -17,7 +17,7 @@ ASSUMPTIONS = ['the rewritten encoding is a legal BER encoding of the same value
 SHARDS = {'quick': (16, 120), 'thorough': (16, 3000)}
 BUDGET = {'quick': 100, 'thorough': 1500}
 MIN_NONTRIVIAL = {'quick': 500, 'thorough': 5000}
-CFG = {'any': False, 'long_str_pct': 0, 'max_depth': 3}
+CFG = {'any': False, 'long_str_pct': 0, 'max_depth': 3, 'many_elems_pct': 0}
 TECHNIQUE = 'property-based testing: exhaustive single-node non-canonical rewrites of generated DER encodings'
 
 
@@ -54,6 +54,39 @@ def rewrites(T, v):
 
 def implicit_free(T):
     return not any(m == 'I' for t in fz.type_nodes(T) for m, _c, _n in t.get('tags', ()))
+
+
+def interleaved(dec, e2, cut, spec, sch):
+    """-> None when the strict streaming decoder refuses e2, else (kind, message)."""
+    from pv.core import streams
+    from pyasn1 import error as _err
+    st = streams.SeekableFeed()
+    st.feed_bytes(e2[:cut])
+    got = []
+    try:
+        it = iter(lib.DEC[dec].StreamingDecoder(st, asn1Spec=spec) if spec is not None else lib.DEC[dec].StreamingDecoder(st))
+        for _ in range(3):
+            x = next(it, None)
+            if x is None or not isinstance(x, _err.SubstrateUnderrunError):
+                return None if x is None else ('accepted', 'a value came out of the first %d octets' % cut)
+        # meanwhile, elsewhere in the process
+        lib.decode('BER', e2, None)
+        lib.decode('BER', e2, sch)
+        st.feed_bytes(e2[cut:])
+        st.finish()
+        for _ in range(8 * len(e2) + 16):
+            x = next(it, None)
+            if x is None:
+                break
+            if not isinstance(x, _err.SubstrateUnderrunError):
+                got.append(x)
+    except _err.PyAsn1Error:
+        return None
+    except Exception as ex:
+        return ('leak', 'leaked %s' % harness.exc_sig(ex))
+    if got:
+        return ('accepted', 'the decoder handed out %d value(s)' % len(got))
+    return None
 
 
 def run_case(case, col=None):
@@ -121,6 +154,17 @@ def run_case(case, col=None):
                     if ds.ok and not lib.decode(dec, e2, sch, typeMap={}).ok:
                         F(sub + '-sharedmap', 'accepted:' + kind, '%s.decode(typeMap=m) accepted the %s rewrite at %s after ber.decode had used the same m: %s' % (
                             dec.lower(), kind, where, e2.hex()[:120]), obs={'rewrite': idx, 'kind': kind, 'where': where})
+                if not d.ok and d.status != 'leak' and len(e2) >= 4 and node.depth >= 1:
+                    # the same decoder as a suspended streaming decoder: the input arrives in two bursts, and while the source is
+                    # dry the process decodes something else with the BER decoder (one thread, calls interleaved step by step)
+                    for cut in sorted({2, len(e2) // 2}):
+                        if not 0 < cut < len(e2):
+                            continue
+                        r = interleaved(dec, e2, cut, sch if guided else None, sch)
+                        if r is not None:
+                            F(sub + '-interleaved', r[0] + ':' + kind, '%s StreamingDecoder, input cut at %d with a ber.decode in between: %s | %s (DER %s)' % (
+                                dec.lower(), cut, r[1], e2.hex()[:120], e.hex()[:120]), obs={'rewrite': idx, 'kind': kind, 'where': where})
+                            break
                 if d.ok:
                     F(sub, 'accepted:' + kind, '%s.decode accepted the %s rewrite at %s: %s (DER %s)' % (
                         dec.lower(), kind, where, e2.hex()[:120], e.hex()[:120]), obs={'rewrite': idx, 'kind': kind, 'where': where})
